@@ -102,3 +102,64 @@ def place_instructions(e, c: RiscvCtx, items):
     else:
         im.instructions = {builtins.int(a): i for a, i in items}
     return im
+
+
+# ---------------------------------------------------------------------------------------------------
+# TOY
+# ---------------------------------------------------------------------------------------------------
+
+
+class ToyInputs:
+    """Symbolic leaves of a TOY state, declared once so that several simulations can be built
+    from the same pre-state."""
+
+    def __init__(self, e, mem_size=None, done=None, next_cycle=None, ir_opcode=None):
+        self.e = e
+        self.mem_size = mem_size
+        self.accu = e.int("accu", 0, 0xFFFF)
+        self.pc = e.int("pc", 0, (mem_size or 4096) - 1)
+        self.max_pc = e.int("max_pc", 0, (mem_size or 4096) - 1)
+        if ir_opcode is None:
+            self.ir_word = e.int("ir", 0, 0xFFFF)
+        else:
+            self.ir_word = (ir_opcode << 12) | e.int("ir_addr", 0, 0xFFF)
+        self.cur = e.int("addr_cur", 0, 4095)
+        self.nxt = e.int("addr_next", 0, 4095)
+        if mem_size:
+            # table variant: opcode of every cell concrete (the memory table decodes every row, a
+            # symbolic opcode would fork 13 ways per row), address bits symbolic
+            self.cells = [(((5 * i + 3) % 16) << 12) | e.int("mem%d" % i, 0, 0xFFF) for i in range(mem_size)]
+            self.store = None
+        else:
+            self.store = Store(e, "T0", 12, 16)
+        self.done = done
+        self.next_cycle = next_cycle
+
+
+def mk_toy(e, inp: ToyInputs):
+    from architecture_simulator.simulation.toy_simulation import ToySimulation
+    from architecture_simulator.isa.toy.toy_instructions import ToyInstruction
+    from architecture_simulator.util.fixedint_12 import UInt12
+
+    f = fx()
+    sim = ToySimulation(unified_memory_size=inp.mem_size)
+    st = sim.state
+    st.accu = f.UInt16(inp.accu)
+    st.program_counter = UInt12(inp.pc)
+    st.max_pc = inp.max_pc
+    st.address_of_current_instruction = inp.cur
+    st.address_of_next_instruction = inp.nxt
+    st.loaded_instruction = None if inp.done else ToyInstruction.from_integer(inp.ir_word)
+    if inp.next_cycle is not None:
+        sim.next_cycle = inp.next_cycle
+    if inp.mem_size:
+        st.memory.memory_file = {i: f.UInt16(v) for i, v in enumerate(inp.cells)}
+        store = None
+        if e.mode == "sym":
+            st.memory.address_range = SymRange(0, inp.mem_size)
+    else:
+        store = inp.store.fork()
+        st.memory.memory_file = SymMem(e, store, f.UInt16, total=True)
+        if e.mode == "sym":
+            st.memory.address_range = SymRange(0, 4096)
+    return sim, store
